@@ -134,6 +134,14 @@ def keys_for(kinds, suffix_first=None, style="num"):
     return out
 
 
+def suffix_bare_steps(keys, params, kinds_to_suffix, tag):
+    """Gives the bare (unsuffixed) steps of the listed kinds the suffix tag ('validation' -> 'validation.<tag>'); confidence
+    steps are left alone (other steps name them through their suffix). Returns (keys, params)."""
+    ren = {k: f"{k}.{tag}" for k in keys if "." not in k and k in kinds_to_suffix and k != "cost_volume_confidence"}
+    new_keys = [ren.get(k, k) for k in keys]
+    return new_keys, {ren.get(k, k): v for k, v in params.items()}
+
+
 def instantiate(keys, params=None, multiband=False):
     """keys -> pipeline dict with valid minimal parameters (deep copies)."""
     pipe = {}
